@@ -127,7 +127,7 @@ def fake_redis():
     return bad
 
 
-CANARIES = [("C19-m2", "C19"), ("C06-m2", "C06"), ("C15-m1", "C15"), ("C07-m5", "C07"), ("C20-m5", "C20")]
+CANARIES = [("C19-m2", "C19"), ("C06-m2", "C06"), ("C15-m1", "C15"), ("C07-m5", "C07"), ("C20-m5", "C20"), ("C13-m9", "C13")]
 
 
 def canaries():
